@@ -20,6 +20,7 @@ import (
 	"github.com/google/pprof/profile"
 	"github.com/google/pprof/xverif/gen"
 	"github.com/google/pprof/xverif/pp"
+	"github.com/google/pprof/xverif/tlsfix"
 	"github.com/google/pprof/xverif/vk"
 	"pgregory.net/rapid"
 )
@@ -649,3 +650,17 @@ func TestPropTempFiles(t *testing.T) {
 }
 
 var _ plugin.ObjTool
+
+// ---- facet tls: per-source certificate verification under parallel fetch ----
+
+func genTLS(t *rapid.T) *tlsfix.Case {
+	n := rapid.SampledFrom([]int{2, 3, 8, 16}).Draw(t, "n")
+	c := &tlsfix.Case{N: n, Insecure: rapid.IntRange(0, n-1).Draw(t, "insecure"), SlowMs: rapid.SampledFrom([]int{0, 20, 50}).Draw(t, "slow")}
+	c.Secure = (c.Insecure + 1 + rapid.IntRange(0, n-2).Draw(t, "secureoff")) % n
+	return c
+}
+
+func TestPropTLS(t *testing.T) {
+	vk.Main(t, vk.Spec[tlsfix.Case]{ID: "C20", Facet: "tls", Quick: 40, Thorough: 300, Gen: genTLS, Check: tlsfix.Check, CaseTimeout: 120 * time.Second,
+		Rule: "2..16 sources fetched in parallel over loopback HTTP with pprof's own transport: one https+insecure:// (its answer held back 0/20/50 ms so that it is in flight while the others are fetched), one https:// to the same self-signed server, the rest plain http; under the race detector; oracle: no data race, the insecure source is fetched, the https:// source is never fetched - verification is per source, not a state of the shared transport; every case is non-trivial"})
+}
